@@ -203,7 +203,7 @@ def run(tier: str) -> int:
                      "the documented order reproduces the mirror of the new directory for every pair of snapshots, writes only and all "
                      "of the diff) and validated on real containers (Trace_Packer.tla)")
         if PP.model(rep, wd, quick):
-            step_ = max(1, len(cases) // (150 if quick else 1000))
+            step_ = max(1, len(cases) // (150 if quick else 450))
             PP.conformance(rep, wd, quick, rng, pairs=[c for j, c in enumerate(cases) if j % step_ == 0 and c["a"] != c["b"]])
         # binding self-test: a reordered / truncated node list must be rejected
         import copy
